@@ -329,7 +329,13 @@ def build(spec):
             a[0, n - 1] += 0.5          # not symmetric: a transposed read-back must be noticed
         obj = cls(mat=a, **_taxa_kwargs(spec, rs, n))
     elif name in ("DenseSquareTaxaTraitMatrix", "DenseTwoWayDHAdditiveGeneticVarianceMatrix"):
-        obj = cls(mat=_floats(rs, (n, n, t), flav), **_taxa_kwargs(spec, rs, n), **_trait_kw(spec, rs, t))
+        m3 = _floats(rs, (n, n, t), flav)
+        lay = spec.get("layout")
+        if lay == "F":
+            m3 = numpy.asfortranarray(m3)                       # same values, column-major memory order
+        elif lay == "moved":
+            m3 = numpy.moveaxis(numpy.ascontiguousarray(numpy.moveaxis(m3, 2, 0)), 0, 2)   # a view of a per-trait stack (t,n,n)
+        obj = cls(mat=m3, **_taxa_kwargs(spec, rs, n), **_trait_kw(spec, rs, t))
     else:
         raise KeyError(name)
     if spec.get("gtaxa") and "taxa_grp" in spec.get("opt", []) and "taxa_grp" in FIELDS[name]:
@@ -1221,6 +1227,8 @@ def rand_spec(rnd, name, mode="any", labs=("ascii", "uni", "mixed", "tricky")):
                   stale=rnd.random() < 0.4)
         if not sp["group"]:
             sp["shuffle"] = rnd.random() < 0.5
+    elif name in ("DenseSquareTaxaTraitMatrix", "DenseTwoWayDHAdditiveGeneticVarianceMatrix"):
+        sp["layout"] = rnd.choice(["C", "C", "F", "moved"])       # memory order of the values: row-major, column-major, a moved-axis view
     elif name in MODELS:
         sp.update(q=rnd.choice([1, 2]), nmisc=rnd.choice([0, 1, 3]), hyper=rnd.choice([0, 0, 1, 3, 5]))
     elif name == "G_E_Phenotyping":
